@@ -267,14 +267,10 @@ def t_rhs(sess, n_grains, regime):
         g = len(klog) % N
         second = holder.get("second", False)
         klog.append(dict(second=second, g=g, orientation=orientation, strain_rate=strain_rate, velocity_gradient=velocity_gradient, p=p_, n=n_, lam=lam_))
-        zero = sym.sym_and([x == 0 for x in np.asarray(strain_rate, dtype=object).flat])
         dA = quat.symmat(f"KdA{g}_")
         if second:
             dA = dA @ holder["Q"].transpose()
-        out = np.empty((3, 3), dtype=object)
-        for ij in np.ndindex(3, 3):
-            out[ij] = sym.ite(zero, R(0), dA[ij])
-        return out.view(SArr), sym.ite(zero, R(0), real(f"KE{g}"))
+        return dA, real(f"KE{g}")
 
     def fn():
         log.clear()
@@ -347,6 +343,8 @@ def t_rhs(sess, n_grains, regime):
                     D2[i, j] = D2[j, i] = apps[-1][0][kk]
                     kk += 1
             sess.prove_nf(f"{pt}: the two strain rates are related by D' = Q D Q^T (justifies equal spectral radii)", p.pc, rules, D2, Q @ sarr(D1) @ Qt)
+        if sess.path_infeasible(f"{pt}: inconsistent combination (the two frames disagree on whether the strain rate vanishes) is infeasible", pc):
+            continue
         k1 = [c for c in v["k"] if not c["second"]]
         k2 = [c for c in v["k"] if c["second"]]
         if len(k1) != len(k2):
